@@ -39,7 +39,7 @@ pub fn run(args: &Args) -> Report {
   }
   let mut r = match args.property.as_str() {
     "C01" => {
-      let mut r = with_exhaustive(wf::run_classes("C01", t, s, &[CP { name: "td-exact", n: 4000 * scale }, CP { name: "td-mixed", n: 6000 * scale }, CP { name: "td-soak-any", n: 15 * scale }], replay.clone()), "C01", t, s, &replay);
+      let mut r = with_exhaustive(wf::run_classes("C01", t, s, &[CP { name: "td-exact", n: 4000 * scale }, CP { name: "td-mixed", n: 6000 * scale }, CP { name: "td-soak-any", n: 15 * scale }, CP { name: "td-fc-mixed", n: 2500 * scale }], replay.clone()), "C01", t, s, &replay);
       r.rule = format!("{}Class: top-down-only histories. Monitor: every value returned by Session::require and, after the session, every resource content is compared with the from-scratch interpreter Ref run on the state the session started from (thorough: also a fresh Pie). distinct = digest of the case (program, initial state, history); non-trivial = a case with at least one session in which at least one previously completed task was re-executed AND at least one was reused after validation.", CLASS_DOC);
       match &replay { Some((c, n)) if c == "files" => { r = wf::run_files("C01", s, 0, Some(*n)); } Some(_) => {} None => r.merge(wf::run_files("C01", s, 150 * scale, None)) }
       r.rule.push_str(" File-backed slice: the same generated programs over pie's real PathBuf resource on a temporary directory with the real HashChecker / ExistsChecker / ModifiedChecker (modification times set explicitly and strictly increasing) and EqualsChecker / AlwaysConsistent, outputs and file contents compared with Ref.");
@@ -102,7 +102,7 @@ pub fn run(args: &Args) -> Report {
       r
     }
     "C09" => {
-      let mut r = with_exhaustive(wf::run_classes("C09", t, s, &[CP { name: "td-mixed", n: 5000 * scale }, CP { name: "pure-mixed", n: 5000 * scale }], replay.clone()), "C09", t, s, &replay);
+      let mut r = with_exhaustive(wf::run_classes("C09", t, s, &[CP { name: "td-mixed", n: 5000 * scale }, CP { name: "pure-mixed", n: 5000 * scale }, CP { name: "td-multi", n: 1500 * scale }], replay.clone()), "C09", t, s, &replay);
       r.rule = format!("{}Classes: programs mixing all checker kinds. Monitor: per context operation the exact user-visible call pattern (Resource::read -> stamp_reader on that very reader before the task's first get; Resource::write -> write function -> stamp_writer seeing the written value; written_to -> stamp at call time; require -> stamp of the returned output); every later check is handed the checker value and stamp of the dependency's creation; inconsistent => owner executed next, all consistent => owner not executed. non-trivial = a distinct case with a session with both consistent and inconsistent verdicts.", CLASS_DOC);
       r.floor("both verdicts observed", r.get("verdicts_consistent") > 100 && r.get("verdicts_inconsistent") > 100);
       r
